@@ -393,6 +393,16 @@ def rule_adapter(facts, rep, crate, mod):
       write_str(s): calls (self.writer)(s.as_bytes()) once; Ok -> Ok(()), nothing stored; Err(e) -> self.error = Err(e), Err(fmt::Error)
       write_fmt(args): fmt::write Ok -> Ok(()); Err with a saved error -> that error; Err without -> a new io::Error (never Ok)."""
     import abseval
+    # the representation of "no error saved yet" is whatever the constructor stores (Ok(()), None, ...): the three functions are
+    # composed, not compared with a fixed encoding
+    nw = facts.body(crate, f"{mod}Adapter::<W>::new")
+    try:
+        v0 = abseval.Evaluator(facts, crate, {}).call_fn(crate, nw["path"], [("sym", "writer")])
+        X0 = v0[1]["error"] if v0[0] == "rec" and "error" in v0[1] else None
+    except Unrecognised:
+        X0 = None
+    if X0 is None:
+        raise Unrecognised("Adapter::new does not evaluate to a record with an `error` field")
     ws = facts.body(crate, f"<{mod}Adapter<W> as core::fmt::Write>::write_str")
     rep.fn(ws["path"])
     sname = ws["params"][1]["name"]
@@ -407,7 +417,7 @@ def rule_adapter(facts, rep, crate, mod):
         ev = abseval.Evaluator(facts, crate, {"call:self.writer": writer, "core::str::<impl str>::as_bytes": lambda a: ("bytes-of", a[0])})
         env = abseval.Env()
         env[sname] = ("sym", "s")
-        env["self.error"] = ("ok", ("unit",))
+        env["self.error"] = X0
         try:
             try:
                 r = ev.ev(ws["hir"], env)
@@ -422,9 +432,12 @@ def rule_adapter(facts, rep, crate, mod):
     ok_call = all(len(c) == 1 and c[0] == [("bytes-of", ("sym", "s"))] for _, c, _ in res.values())
     rep.check(ok_call, "W4", ws["path"], "write_str:calls-writer-with-the-bytes", f"(self.writer)(s.as_bytes()) exactly once: {[c for _, c, _ in res.values()]}", loc(ws))
     r_err, _, st_err = res["err"]
-    ok_err = r_err[0] == "err" and st_err == [("self.error", ("err", ("sym", "e")))]
+    def mentions(v, needle):
+        return v == needle or (isinstance(v, tuple) and any(mentions(x, needle) for x in v[1:]))
+    ok_err = r_err[0] == "err" and len(st_err) == 1 and st_err[0][0] == "self.error" and mentions(st_err[0][1], ("sym", "e")) and st_err[0][1] != X0
+    SAVED = st_err[0][1] if ok_err else None
     rep.check(ok_err, "W4", ws["path"], "write_str:saves-io-error",
-              f"on Err(e): self.error = Err(e) is stored and fmt::Error is returned (the io::Error is not discarded); result {r_err}, stores {st_err}", loc(ws))
+              f"on Err(e): e is stored in self.error and fmt::Error is returned (the io::Error is not discarded); result {r_err}, stores {st_err}", loc(ws))
     r_ok, _, st_ok = res["ok"]
     rep.check(r_ok == ("ok", ("unit",)) and not st_ok, "W4", ws["path"], "write_str:Ok-is-Ok", f"{r_ok} {st_ok}", loc(ws))
     wf = facts.body(crate, f"{mod}Adapter::<W>::write_fmt")
@@ -443,7 +456,10 @@ def rule_adapter(facts, rep, crate, mod):
             env = abseval.Env()
             for p in wf["params"]:
                 env[p["name"]] = ("sym", p["name"])
-            env["self.error"] = ("ok", ("unit",)) if saved == "ok" else ("err", ("sym", "saved"))
+            if saved == "err" and SAVED is None:
+                ok, why = False, "write_str saves no error to return"
+                continue
+            env["self.error"] = X0 if saved == "ok" else SAVED
             try:
                 try:
                     r = ev.ev(wf["hir"], env)
@@ -451,17 +467,15 @@ def rule_adapter(facts, rep, crate, mod):
                     r = rt.v
             except Unrecognised as e:
                 raise Unrecognised(f"Adapter::write_fmt: {e}")
-            want = ("ok", ("unit",)) if fmt_res == "ok" else (("err", ("sym", "saved")) if saved == "err" else ("err", ("sym", "new-io-error")))
+            want = ("ok", ("unit",)) if fmt_res == "ok" else (("err", ("sym", "e")) if saved == "err" else ("err", ("sym", "new-io-error")))
             if r != want:
                 ok = False
                 why = (f"fmt::write {fmt_res}, saved error {saved}: returns {r}, expected {want}" +
                        (" — a formatter failure is turned into success" if r[0] == "ok" and fmt_res == "err" else ""))
     rep.check(ok, "W4", wf["path"], "write_fmt:returns-saved-error",
               f"Adapter::write_fmt returns the saved inner error when fmt::write fails ({why or str(n_cases) + ' cases'})", loc(wf))
-    nw = facts.body(crate, f"{mod}Adapter::<W>::new")
-    s = [n for n in hir.walk(nw["hir"]) if n.get("k") == "struct"]
-    ok = len(s) == 1 and is_ok_ctor(hir.simp({x["name"]: x["e"] for x in s[0]["fields"]}.get("error", {})))
-    rep.check(ok, "W4", nw["path"], "new:error-starts-Ok", "", loc(nw))
+    rep.check(not mentions(X0, ("sym", "writer")) and X0[0] in ("ok", "none", "enum", "unit"), "W4", nw["path"], "new:error-starts-Ok",
+              f"a fresh adapter holds no error ({X0}); write_fmt with that value and a failing formatter reports the formatter error (case above)", loc(nw))
 
 
 EXITS = ("ret", "break", "continue")
